@@ -158,7 +158,8 @@ class Engine:
                     features.append(must)
         sweep = f.random() < (0.22 if tier == "quick" else 0.12)
         n_docs = g.randint(1, 3) if (front_end == "sphinx" and sweep) else g.randint(2, 4)
-        proj = gd.gen_project(g, n_docs=n_docs, front_end=front_end, features=features,
+        rich_cfg = gd.gen_config(g, front_end, rich=True) if g.random() < 0.5 else None
+        proj = gd.gen_project(g, n_docs=n_docs, front_end=front_end, features=features, cfg=rich_cfg,
                               n_blocks=g.choice([3, 5, 8] if sweep else [3, 5, 8, 12, 18]))
         files = proj["files"]
         cfg = proj["cfg"]
